@@ -173,7 +173,7 @@ impl FmtAttribute {
 
         let expr = match param.arg {
             // (3) And either exactly one positional argument is specified.
-            Some(parsing::Argument::Integer(_)) | None => (self.args.len() == 1)
+            Some(parsing::Argument::Integer(0)) | None => (self.args.len() == 1)
                 .then(|| self.args.first())
                 .flatten()
                 .map(|a| a.expr.clone()),
@@ -189,6 +189,10 @@ impl FmtAttribute {
                 .flatten()
                 .filter(|a| a.alias.as_ref().map(|a| a.0 == name).unwrap_or_default())
                 .map(|a| a.expr.clone()),
+
+            // Any other positional index cannot refer to the only argument, so leave it to
+            // `format_args!()` to report the invalid reference.
+            Some(parsing::Argument::Integer(_)) => None,
         }?;
 
         let trait_name = param
